@@ -370,12 +370,131 @@ def awkward_exception_cases(out):
                     out.violation(f"awkward-exception:bindings:{sname}", f"after a {sname} left by {E.__name__}() the enclosing block sees bindings {b1[1]} instead of {b1[0]}", rep)
 
 
+def recursion_limit_cases(out):
+    """blocks and calls opened all the way down to the interpreter's recursion limit: however the RecursionError
+    unwinds them, every block that was entered is left again — the caller sees its own bindings, and outside everything
+    checks are stateless. Tried at 8 stack alignments (the limit is hit at another statement each time) and for a walk
+    that recurses first and checks afterwards (post-order) as well as one that checks first."""
+    import sys
+
+    from impl_prog import Duck, canon_bindings, stack_depth
+
+    def walk_post(k):
+        with jaxtyped("context"):
+            walk_post(k + 1)
+            isinstance(Duck((k % 5 + 1,), "float32"), Float[Duck, "n"])
+
+    def walk_pre(k):
+        with jaxtyped("context"):
+            isinstance(Duck((k % 5 + 1,), "float32"), Float[Duck, "n"])
+            walk_pre(k + 1)
+
+    @jaxtyped(typechecker=None)
+    def walk_fn(x: Float[Duck, "n"], k):
+        isinstance(x, Float[Duck, "n"])
+        with jaxtyped("context"):
+            walk_fn(Duck((k % 5 + 1,), "float32"), k + 1)
+
+    def pad(k, thunk):
+        return thunk() if k == 0 else pad(k - 1, thunk)
+
+    old_limit = sys.getrecursionlimit()
+    sys.setrecursionlimit(400)     # the walks go down in steps of 2-3 frames; 400 keeps them cheap
+    try:
+        for wname, walk in (("post-order blocks", lambda: walk_post(0)), ("pre-order blocks", lambda: walk_pre(0)),
+                            ("decorated function with a block", lambda: walk_fn(Duck((1,), "float32"), 0))):
+            for align in range(8):
+                d0 = stack_depth()
+                seen = {}
+
+                @jaxtyped(typechecker=None)
+                def caller(x):
+                    isinstance(x, Float[Duck, "foo"])
+                    try:
+                        pad(align, walk)
+                        seen["how"] = "returned"
+                    except RecursionError:
+                        seen["how"] = "RecursionError"
+                    seen["mine"] = canon_bindings(impl.bindings())["single"]
+                    seen["rejects5"] = impl.check_once(Duck((5,), "float32"), Float[Duck, "foo"])
+                    seen["accepts3"] = impl.check_once(Duck((3,), "float32"), Float[Duck, "foo"])
+                    seen["depth"] = stack_depth()
+
+                try:
+                    caller(Duck((3,), "float32"))
+                    d1 = stack_depth()
+                    stateless = [impl.check_once(Duck((m,), "float32"), Float[Duck, "foo"]) for m in (3, 5, 7)]
+                finally:
+                    impl_prog.drain_stack()
+                out.case(("recursion-limit", wname, align), True, sample={"walk": wname, "alignment": align, **{k: str(v) for k, v in seen.items()}, "depth_after": d1})
+                rep = {"recursion_limit": [wname, align]}
+                if seen.get("how") != "RecursionError":
+                    out.count("recursion_limit_not_reached")
+                    continue
+                if seen["depth"] != d0 + 1 or d1 != d0:
+                    out.violation("recursion-limit:depth", f"{wname} down to the recursion limit (alignment {align}), RecursionError caught by a decorated caller: inside the caller "
+                                  f"{seen['depth'] - d0} binding context(s) are open (must be 1), after it returned {d1 - d0} (must be 0)", rep)
+                    return
+                if seen["mine"] != [["foo", 3]] or seen["rejects5"] != "F" or seen["accepts3"] != "T" or stateless != ["T", "T", "T"]:
+                    out.violation("recursion-limit:bindings", f"{wname} down to the recursion limit (alignment {align}): afterwards the caller (foo=3) sees {seen['mine']}, "
+                                  f"a length-5 array gives {seen['rejects5']} (F), a length-3 one {seen['accepts3']} (T); outside everything lengths 3, 5, 7 give {stateless}", rep)
+                    return
+    finally:
+        sys.setrecursionlimit(old_limit)
+
+
+def other_thread_cases(out):
+    """bindings belong to the call / block of ONE thread: while a thread is inside a decorated call (or a block) that has
+    bound `n`, checks made by another thread outside any call are stateless, and its own calls see only their own
+    bindings; sequenced with events, no timing"""
+    import threading
+
+    from impl_prog import Duck, canon_bindings, stack_depth
+
+    for scope in ("call", "block"):
+        inside, go = threading.Event(), threading.Event()
+        res = {}
+
+        @jaxtyped(typechecker=None)
+        def held(x: Float[Duck, "n"]):
+            isinstance(x, Float[Duck, "n"])
+            inside.set()
+            go.wait(30)
+            res["held"] = canon_bindings(impl.bindings())["single"]
+
+        def held_block():
+            with jaxtyped("context"):
+                isinstance(Duck((3,), "float32"), Float[Duck, "n"])
+                inside.set()
+                go.wait(30)
+                res["held"] = canon_bindings(impl.bindings())["single"]
+
+        t = threading.Thread(target=(lambda: held(Duck((3,), "float32"))) if scope == "call" else held_block)
+        t.start()
+        inside.wait(30)
+        try:
+            res["depth_here"] = stack_depth()
+            res["stateless"] = [impl.check_once(Duck((m,), "float32"), Float[Duck, "n"]) for m in (5, 7)]
+            with jaxtyped("context"):
+                res["own"] = [impl.check_once(Duck((4,), "float32"), Float[Duck, "n"]), impl.check_once(Duck((3,), "float32"), Float[Duck, "n"])]
+        finally:
+            go.set()
+            t.join(30)
+        out.case(("other-thread", scope), True, sample={"scope": scope, **{k: str(v) for k, v in res.items()}})
+        if res["depth_here"] != 0 or res["stateless"] != ["T", "T"] or res["own"] != ["T", "F"] or res.get("held") != [["n", 3]]:
+            out.violation(f"other-thread:{scope}", f"while another thread is inside a {scope} that bound n=3: this thread has {res['depth_here']} open contexts (0), lengths 5, 7 against "
+                          f"'n' outside any call give {res['stateless']} (T, T), a block of its own binding n=4 then checking length 3 gives {res['own']} (T, F); the other thread "
+                          f"afterwards sees {res.get('held')} ([['n', 3]])", {"other_thread": scope})
+
+
 def run(tier, seed, out, drv, facts):
     rng = Rng(seed, "C05")
     thorough = tier == "thorough"
     generator_cases(out)
     recursion_cases(out)
     awkward_exception_cases(out)
+    recursion_limit_cases(out)
+    other_thread_cases(out)
     for prog in block_argument_programs():
         run_one(out, drv, facts, prog, "typeguard", rng, "block-arguments")
     for prog in toggle_programs():
@@ -396,6 +515,12 @@ def replay(rep, out, drv, facts):
         return
     if "awkward" in rep:
         awkward_exception_cases(out)
+        return
+    if "recursion_limit" in rep:
+        recursion_limit_cases(out)
+        return
+    if "other_thread" in rep:
+        other_thread_cases(out)
         return
     if "program" in rep:
         run_one(out, drv, facts, rep["program"], "typeguard", None, "replay")
